@@ -320,8 +320,11 @@ def c07(tier):
                                             "mv-pct": 0, "keys": 0, "repr": 0, "policy": 2})
     shards += trace(ck, exe, "games", "q", {"roots": low, "games": 400 if full else 32, "maxply": 700 if full else 220, "shards": 16,
                                             "mv-pct": 0, "keys": 0, "repr": 0, "policy": 3})
+    mates = write_roots_named(ck, ["roots_mate.fen"], "mate.fen")
+    shards += trace(ck, exe, "games", "m", {"roots": mates, "games": 400 if full else 64, "maxply": 40, "shards": 16,
+                                            "mv-pct": 0, "keys": 0, "repr": 0, "policy": 5})
     viols, cnt = validate(ck, shards)
-    need(cnt, ["pred_cmp", "n_rep", "n_rep3", "n_r50", "n_insuff", "n_check", "n_mate"], "C07 traces")
+    need(cnt, ["pred_cmp", "n_rep", "n_rep3", "n_r50", "n_insuff", "n_check", "n_mate", "n_stale"], "C07 traces")
     take(ck, "C07", viols, others)
     ck.cov["evaluations"] = cnt["pred_cmp"]
     ck.cov["distinct_nontrivial"] = len(core.distinct_fens(shards, pred=lambda e: e.get("chk") or e.get("rep") or e.get("r50") or not e.get("mat", True)
